@@ -1,6 +1,8 @@
 HOOK_COMMITS = []
 NOTES = "Model checking = bounded exhaustive exploration of the real code against reference models; see DESIGN.md. Exit 0 held / 1 violation / >=2 machinery failure."
 ENGINES = [
+    {"name": "vc_verdict", "path": "harness/src/engines/vc_verdict.rs", "serves_properties": ["C05"],
+     "kind_free_text": "exhaustive verdict table + exhaustive short documents through the scrut binary"},
     {"name": "vc_state", "path": "harness/src/engines/vc_state.rs", "serves_properties": ["C12"],
      "kind_free_text": "explicit-state BFS with state deduplication; implementation = real executor + bash, reference model = one bash session"},
     {"name": "vc_io", "path": "harness/src/engines/vc_io.rs", "serves_properties": ["C13"],
@@ -101,5 +103,10 @@ CHECKS.append(
      "technique": "explicit-state breadth-first search over canonical shell states (deduplicated on the reference probe output); every transition executed on the real StatefulExecutor+BashRunner with real bash and compared with a single-bash-session reference model",
      "text": "States are canonical probe outputs of one bash session; from every reached state every snippet of the 30-snippet alphabet is applied; each transition is run through the real executor (one bash process per test case, state file in between) and its probe output must equal that of ONE bash session fed the same snippets (detached snippets omitted there). Reports states, transitions and that every transition was validated against the implementation.",
      "note": "/bin/bash of this image; depth-bounded (quick: all transitions from states at depth < 2, thorough: < 3); read-only variables and -e/-x/-v excluded as documented"})
+CHECKS.append(
+    {"id": "C05", "engine": "vc_verdict", "category": "exploration", "design_ref": "DESIGN.md §2 C05",
+     "technique": "exhaustive enumeration of the verdict table (exit status x expected code x stream x acceptance) through the real validate, and of all short documents over command behaviours (incl. death by signal) through the real binary",
+     "text": "All 2240 rows of the verdict table are evaluated by the real TestCase::validate (pass iff Code(c), c = expected or 0, and the selected stream accepted; wrong code reported as such whatever the output; no status without exit code ever passes); every document of 1..2 (quick) / 1..3 (thorough) test cases over 9 command behaviours is run in Markdown and Cram through `scrut test -r json` and the per-test kinds and the process exit status are compared with the reference.",
+     "note": "/bin/bash of this image; acceptance of streams itself is C01-C03"})
 claimed = {c["id"] for c in CHECKS}
 NOT_APPLICABLE = [{"property_id": p, "reason": "check not built yet (work in progress; planned in DESIGN.md)"} for p in ALL if p not in claimed]
